@@ -20,10 +20,13 @@ import (
 	"fmt"
 	"time"
 
+	"github.com/olric-data/olric/internal/cluster/partitions"
+	"github.com/olric-data/olric/internal/discovery"
 	"github.com/olric-data/olric/internal/protocol"
 	"github.com/olric-data/olric/internal/resp"
 	"github.com/olric-data/olric/internal/util"
 	"github.com/olric-data/olric/pkg/storage"
+	"github.com/redis/go-redis/v9"
 )
 
 func (dm *DMap) loadCurrentAtomicInt(e *env) (int, int64, error) {
@@ -45,7 +48,28 @@ func (dm *DMap) loadCurrentAtomicInt(e *env) (int, int64, error) {
 	return int(nr), entry.TTL(), nil
 }
 
+// atomicOwner returns the partition owner of the key if it is not this node. The fine-grained
+// lock that serializes atomic operations lives on the partition owner.
+func (dm *DMap) atomicOwner(e *env) (discovery.Member, bool) {
+	hkey := partitions.HKey(e.dmap, e.key)
+	member := dm.s.primary.PartitionByHKey(hkey).Owner()
+	return member, !member.CompareByName(dm.s.rt.This())
+}
+
 func (dm *DMap) atomicIncrDecr(cmd string, e *env, delta int) (int, error) {
+	if member, remote := dm.atomicOwner(e); remote {
+		rcmd := protocol.NewIncr(e.dmap, e.key, delta).Command(dm.s.ctx)
+		if cmd == protocol.DMap.Decr {
+			rcmd = protocol.NewDecr(e.dmap, e.key, delta).Command(dm.s.ctx)
+		}
+		rc := dm.s.client.Get(member.String())
+		if err := rc.Process(e.ctx, rcmd); err != nil {
+			return 0, protocol.ConvertError(err)
+		}
+		res, err := rcmd.Result()
+		return int(res), protocol.ConvertError(err)
+	}
+
 	atomicKey := e.dmap + e.key
 	dm.s.locker.Lock(atomicKey)
 	defer func() {
@@ -110,6 +134,26 @@ func (dm *DMap) Decr(ctx context.Context, key string, delta int) (int, error) {
 }
 
 func (dm *DMap) getPut(e *env) (storage.Entry, error) {
+	if member, remote := dm.atomicOwner(e); remote {
+		rcmd := protocol.NewGetPut(e.dmap, e.key, e.value).SetRaw().Command(dm.s.ctx)
+		rc := dm.s.client.Get(member.String())
+		err := rc.Process(e.ctx, rcmd)
+		if errors.Is(err, redis.Nil) {
+			// There was no previous value.
+			return nil, nil
+		}
+		if err != nil {
+			return nil, protocol.ConvertError(err)
+		}
+		raw, err := rcmd.Bytes()
+		if err != nil {
+			return nil, protocol.ConvertError(err)
+		}
+		entry := dm.engine.NewEntry()
+		entry.Decode(raw)
+		return entry, nil
+	}
+
 	atomicKey := e.dmap + e.key
 	dm.s.locker.Lock(atomicKey)
 	defer func() {
@@ -169,6 +213,16 @@ func (dm *DMap) GetPut(ctx context.Context, key string, value interface{}) (stor
 }
 
 func (dm *DMap) atomicIncrByFloat(e *env, delta float64) (float64, error) {
+	if member, remote := dm.atomicOwner(e); remote {
+		rcmd := protocol.NewIncrByFloat(e.dmap, e.key, delta).Command(dm.s.ctx)
+		rc := dm.s.client.Get(member.String())
+		if err := rc.Process(e.ctx, rcmd); err != nil {
+			return 0, protocol.ConvertError(err)
+		}
+		res, err := rcmd.Result()
+		return res, protocol.ConvertError(err)
+	}
+
 	atomicKey := e.dmap + e.key
 	dm.s.locker.Lock(atomicKey)
 	defer func() {
